@@ -33,6 +33,7 @@ def run(prog, chk):
     chk.decided += ["every kerning class is defined under the unique name makeFeaClassName computed for it, unchanged (R05.10)"]
     chk.decided += ["the pair list handed to the lookup builders is the collected list itself: between the collection (UFO pairs with unknown glyphs / groups removed) and the base / mark and script "
                     "splits no pair is filtered out or rewritten - an exception that 'restates' a class value still shields the pair from a more general exception (R05.12)"]
+    chk.decided += ["feature-writer objects keep no per-font state outside self.context (no memoising decorators, no attributes written outside __init__): a kern writer object reused for a second font must not split base / mark pairs with the first font's mark set (R05.13 = R08.7)"]
     chk.not_decided += ["what a shaper applies", "that common and script lookups never both hold the same glyph pair", "script / bidi classification of glyphs", "the kerning values themselves"]
     chk.guard(r051, prog, chk)
     chk.guard(r052, prog, chk)
@@ -47,6 +48,8 @@ def run(prog, chk):
     chk.guard(r0510, prog, chk)
     chk.guard(r0511, prog, chk)
     chk.guard(r0512, prog, chk)
+    from .c08 import r087
+    chk.guard(r087, prog, chk, "R05.13")
 
 
 # ----------------------------------------------------------------------------- R05.1
@@ -727,6 +730,8 @@ def r0512(prog, chk):
 
 
 MUTANTS = [
+    M("mark set of the kern writer memoised with cached_property (seeded C05m)", "ufo2ft/featureWriters/kernFeatureWriter.py", "KernFeatureWriter.getKerningData",
+      "<decorate>", "functools.cached_property", rule="R05.13"),
     M("'redundant' exceptions dropped after collection (seeded C05j)", "ufo2ft/featureWriters/kernFeatureWriter.py", "KernFeatureWriter.getKerningData",
       "pairs = self.getKerningPairs(side1Groups, side2Groups)", "pairs = self.getKerningPairs(side1Groups, side2Groups)\npairs = [p for p in pairs if p.value != 0 or not (p.firstIsClass and p.secondIsClass)] if not self.context.isVariable else pairs", rule="R05.12"),
     M("collected pairs sorted before they are handed on", "ufo2ft/featureWriters/kernFeatureWriter.py", "KernFeatureWriter.getKerningData",
